@@ -134,7 +134,7 @@ def src_digest():
     return h.hexdigest()[:16]
 
 
-def kani_codegen(repo, prop, dest):
+def kani_codegen(repo, prop, dest, names=None):
     """one shared Kani target dir (dependency artefacts are reused), serialised by a file lock;
     the per-harness GOTO symbol tables are copied into the run's own scratch directory"""
     import fcntl
@@ -147,8 +147,14 @@ def kani_codegen(repo, prop, dest):
         # stale symtabs from an earlier run must not be picked up
         for old in glob.glob(os.path.join(tdir, "kani", "*", "debug", "build", "hyeong", "*")):
             shutil.rmtree(old, ignore_errors=True)
-        r = run(["cargo", "kani", "--only-codegen", "-Z", "stubbing", "--no-assertion-reach-checks",
-                 "--lib", "--target-dir", tdir], cwd=repo, env=env)
+        cmd = ["cargo", "kani", "--only-codegen", "-Z", "stubbing", "--no-assertion-reach-checks",
+               "--lib", "--target-dir", tdir]
+        if names:
+            # only the selected harnesses are lowered to GOTO (one symbol table per harness)
+            cmd.append("--exact")
+            for n in names:
+                cmd += ["--harness", n]
+        r = run(cmd, cwd=repo, env=env)
         if r.returncode != 0:
             log(r.stdout[-6000:])
             raise SystemExit("kani codegen failed (exit %d)" % r.returncode)
@@ -298,8 +304,12 @@ def recursion_unwindset(goto, bound):
             pretty, mangled = m.group(1), m.group(2)
             if "area::Area" in pretty and re.search(r"Clone>::clone|drop_glue|drop_in_place|clone_one|clone_to_uninit", pretty):
                 ids.append(mangled)
+            # drop glue of io::Error (Box<dyn Error> inside): recursive through a vtable call; the writers
+            # used by the harnesses never fail, which the recursion-unwinding assertion then confirms
+            elif re.search(r"io::error|io::Error", pretty) and re.search(r"drop_glue|Drop>::drop|drop_in_place", pretty):
+                ids.append(mangled + ":1")
         _rec_cache[goto] = ids
-    return ",".join("%s:%s" % (i, bound) for i in _rec_cache[goto])
+    return ",".join(i if ":" in i else "%s:%s" % (i, bound) for i in _rec_cache[goto])
 
 
 _fn_cache = {}
@@ -675,7 +685,7 @@ def main():
     results = []
     try:
         write_dispatch(repo, attach, all_h)
-        table, t_codegen = kani_codegen(repo, prop, os.path.join(d, "kout"))
+        table, t_codegen = kani_codegen(repo, prop, os.path.join(d, "kout"), [h["full"] for h in sel])
         log("[%s] kani codegen %.1fs, %d harnesses compiled, %d selected (tier %s)"
             % (prop, t_codegen, len(table), len(sel), tier))
         outdir = os.path.join(d, "goto")
